@@ -345,7 +345,7 @@ type caseWitness struct {
 func TestC25(t *testing.T) {
 	zerolog.SetGlobalLevel(zerolog.Disabled)
 	run := ev.Start("C25")
-	n := run.Pick(500, 50000)
+	n := run.Pick(500, 20000)
 	const specID, lavaChainID = "LAV1", "lava-verif"
 
 	// statement: signed = everything except Badge and Sig
